@@ -41,6 +41,25 @@ func refHashOK(v interface{}, p *protocol.Protocol) (uint, bool) {
 	return 0, false
 }
 
+// c10HashVariants returns malformed relatives of a multihash string: trailing bytes after a complete multihash, a declared
+// length one smaller / larger than the digest, a truncated digest, base64 padding.
+func c10HashVariants(v interface{}) []string {
+	s, ok := v.(string)
+	if !ok {
+		return nil
+	}
+	b, err := base64.RawURLEncoding.DecodeString(s)
+	if err != nil || len(b) < 4 || int(b[1]) != len(b)-2 || b[0] >= 0x80 {
+		return nil
+	}
+	enc := func(x []byte) string { return base64.RawURLEncoding.EncodeToString(x) }
+	shorter := append([]byte{}, b...)
+	shorter[1]--
+	longer := append([]byte{}, b...)
+	longer[1]++
+	return []string{enc(append(append([]byte{}, b...), 1, 2, 3, 4, 5, 6)), enc(append(append([]byte{}, b...), 0)), enc(shorter), enc(longer), enc(b[:len(b)-1]), s + "=", enc(append(append([]byte{}, b...), b...))}
+}
+
 func has(list []string, s string) bool {
 	for _, x := range list {
 		if x == s {
@@ -254,6 +273,26 @@ func jsonPaths(v interface{}, prefix []string, out *[][]string) {
 }
 
 // setPath returns a deep copy of root with the value at path replaced (remove=true deletes it).
+// getPath reads the value at a JSON path (nil when absent).
+func getPath(root interface{}, path []string) interface{} {
+	cur := root
+	for _, k := range path {
+		switch t := cur.(type) {
+		case map[string]interface{}:
+			cur = t[k]
+		case []interface{}:
+			var i int
+			if _, err := fmt.Sscan(k, &i); err != nil || i < 0 || i >= len(t) {
+				return nil
+			}
+			cur = t[i]
+		default:
+			return nil
+		}
+	}
+	return cur
+}
+
 func setPath(root interface{}, path []string, val interface{}, remove bool) interface{} {
 	c := doc.Clone(root)
 	var cur interface{} = c
@@ -481,6 +520,10 @@ func c10(r *hx.Run) {
 				mutated = append(mutated, mustJSON(setPath(tree, path, rep, false)))
 				labels = append(labels, fmt.Sprintf("req:%s:rep%d", strings.Join(path, "/"), ri))
 			}
+			for hi, hv := range c10HashVariants(getPath(tree, path)) {
+				mutated = append(mutated, mustJSON(setPath(tree, path, hv, false)))
+				labels = append(labels, fmt.Sprintf("req:%s:hash%d", strings.Join(path, "/"), hi))
+			}
 		}
 		if s.op != nil {
 			payload := s.op.SignedPayload()
@@ -504,6 +547,10 @@ func c10(r *hx.Run) {
 				for ri, rep := range c10Replacements {
 					mutated = append(mutated, rebuild(setPath(ptree, path, rep, false), nil))
 					labels = append(labels, fmt.Sprintf("signed:%s:rep%d", strings.Join(path, "/"), ri))
+				}
+				for hi, hv := range c10HashVariants(getPath(ptree, path)) {
+					mutated = append(mutated, rebuild(setPath(ptree, path, hv, false), nil))
+					labels = append(labels, fmt.Sprintf("signed:%s:hash%d", strings.Join(path, "/"), hi))
 				}
 			}
 			// foreign but well-formed values
